@@ -581,10 +581,74 @@ func init() {
 			c07stats.Outcome(fmt.Sprintf("declared-rules:%v", want))
 		}, nil
 	}
+	// how the register identifies the profile member of unusual claims types: the JSON document / CBOR token declaring the
+	// registered name under that member selects the registered implementation, which reports that profile
+	Scenarios["c07.profile-member-identification"] = func() (choice.Scenario, func() any) {
+		initial := builtinsOnly(psatoken.VerifRegistrySave())
+		type pt struct {
+			prof    psatoken.IProfile
+			typ     string
+			jsonTag string
+			base    int
+			cborKey bool // declared under key 265 in CBOR as well
+		}
+		pts := []pt{
+			{HdrProfile{"http://example.com/psa/hdr-eat", 0}, "*props.HdrClaims", "eat-profile", 2, true},
+			{HdrProfile{"http://example.com/psa/hdr-psa", 1}, "*props.HdrClaims", "psa-profile", 2, false},
+			{HdrProfile{"http://example.com/psa/hdr-both", 3}, "*props.HdrClaims", "eat-profile", 2, true},
+			{HdrProfile{"http://example.com/psa/hdr-named", 4}, "*props.HdrClaims", "eat-profile", 2, true},
+			{ExtP1NoClaimProfile{"http://example.com/psa/p1-without-claim"}, "*props.ExtP1Claims", "psa-profile", 1, false},
+			{OwnTagProfile{"http://example.com/psa/own-tag"}, "*props.OwnTagClaims", "own-profile", 2, true},
+		}
+		return func(c *choice.Ctx) {
+			psatoken.VerifRegistryRestore(initial)
+			defer psatoken.VerifRegistryRestore(initial)
+			// which of them are registered (every subset), and which one is looked at
+			mask := c.Choose("registered", 1<<len(pts))
+			i := c.Choose("profile", len(pts))
+			if mask&(1<<i) == 0 {
+				return
+			}
+			for j, p := range pts {
+				if mask&(1<<j) != 0 {
+					if err := psatoken.RegisterProfile(p.prof); err != nil {
+						c.Failf("C07:profile-member:registration-refused:"+p.prof.GetName(), "%v", err)
+						return
+					}
+				}
+			}
+			p := pts[i]
+			name := p.prof.GetName()
+			c07stats.StateStr(fmt.Sprint("member-id", mask, i))
+			c07stats.Trans.Add(3)
+			cl, err := psatoken.NewClaims(name)
+			if err != nil {
+				c.Failf("C07:newclaims:"+name, "%v", err)
+			} else if got, gerr := cl.GetProfile(); gerr != nil || got != name || fmt.Sprintf("%T", cl) != p.typ {
+				c.Failf("C07:newclaims-profile:"+name, "NewClaims(%q) is %T reporting %q (%v)", name, cl, got, gerr)
+			}
+			cborTok, jsonTok := dispatchTokens(name, p.base, p.jsonTag)
+			y, err := psatoken.DecodeClaimsFromJSON(jsonTok)
+			if err != nil {
+				c.Failf("C07:profile-member:json:"+name, "the JSON document declaring the registered profile under %q: %v", p.jsonTag, err)
+			} else if fmt.Sprintf("%T", y) != p.typ {
+				c.Failf("C07:profile-member:json:"+name, "the JSON document declaring the registered profile under %q was decoded as %T, registered: %s", p.jsonTag, y, p.typ)
+			}
+			if p.cborKey {
+				z, err := psatoken.DecodeClaimsFromCBOR(cborTok)
+				if err != nil {
+					c.Failf("C07:profile-member:cbor:"+name, "%v", err)
+				} else if fmt.Sprintf("%T", z) != p.typ {
+					c.Failf("C07:profile-member:cbor:"+name, "decoded as %T, registered: %s", z, p.typ)
+				}
+			}
+		}, nil
+	}
 	Checks["C07"] = func(r *evid.Run) {
 		c07stats = NewStats()
 		dl := deadline(r, 55*time.Second, 20*time.Minute)
 		exploreChoiceOpts(r, "c07.declared-profile-rules", -1, dl, 1)
+		exploreChoiceOpts(r, "c07.profile-member-identification", -1, dl, 1)
 		exploreChoiceOpts(r, "c07.dispatch", -1, dl, 1)
 		c07stats.Publish(r)
 		for k, v := range instrInfo() {
